@@ -112,7 +112,7 @@ func c05Run(c *ev.Ctx) {
 		var strs []string
 		var want [][]byte
 		for i := 0; i < nv; i++ {
-			n := []int{0, 5, 60, 4049, 5000, 9000}[r.Weighted([]int{1, 3, 3, 1, 2, 1})]
+			n := []int{0, 5, 60, 4040 + r.Intn(10), 4049, 5000, 9000}[r.Weighted([]int{1, 3, 3, 2, 1, 2, 1})]
 			b := r.Bytes(n)
 			for j := range b {
 				b[j] = 'a' + b[j]%26
